@@ -25,6 +25,7 @@ LEVEL_TEXT = (
     "as the source statements along the offending product path."
     ' The calibrate loop hands the outcome of every executed batch to the scheduler (update once per iteration, C09-R1) - the product analysis takes the loop as it finds it, this rule pins it.'
     ' The action put on the queue is a valid index into the line-up (policy rule of C19).'
+    " A queue / thread / agent operation nested inside a larger expression is hoisted when it is the expression's only call, otherwise the statement is outside the vocabulary (undecided); starred arguments carry their dependencies."
 )
 TECHNIQUE = "effect analysis: extraction of communicating thread summaries from CFGs + exhaustive product exploration (interleaving semantics, FIFO queues)"
 LEVEL_NOTE = ("Trusted base: Python semantics of the statement kinds handled by sa/cfg.py and sa/sync.py (generator-based context managers, try/finally, "
